@@ -262,6 +262,12 @@ pub fn profile_for(prop: &str, rng: &mut Rng, cfg: BuildCfg) -> Profile {
             w[OPK_FILL] += 2;
             w[OPK_CLEAR] += 2;
             f.fork = true;
+            // forks taken from inside a borrow-mode closure / under a held shared guard
+            f.nest = rng.chance(1, 3);
+            if f.nest {
+                w[OPK_NEST] = 8;
+                w[OPK_QUERY] += 8;
+            }
         }
         "C17" => {
             w[OPK_CLEAR] = 10;
